@@ -961,21 +961,22 @@ impl<'p, W, R, T> CompilationScope<'p, W, R, T> {
                     if !func.accepts_arg_count(args.len()) {
                         return Err(CompilationError::CallableBindingFailed);
                     }
-                    let mut bind = Bind::new();
-                    for (param, arg) in func.params.iter().zip(args) {
-                        let arg_type = self.type_of(arg)?;
-                        bind = bind
-                            .mix(&param.type_.bind_in_assignment(&arg_type).ok_or(
-                                CompilationError::InvalidArgumentType {
-                                    expected: param.type_.clone(),
-                                    got: arg_type,
-                                },
-                            )?)
-                            .ok_or(CompilationError::CallableBindingFailed)?;
+                    let arg_types = args
+                        .iter()
+                        .map(|arg| self.type_of(arg))
+                        .collect::<Result<Vec<_>, _>>()?;
+                    for (param, arg_type) in func.params.iter().zip(arg_types.iter()) {
+                        if param.type_.bind_in_assignment(arg_type).is_none() {
+                            return Err(CompilationError::InvalidArgumentType {
+                                expected: param.type_.clone(),
+                                got: arg_type.clone(),
+                            });
+                        }
                     }
-                    if !func.can_bind(&bind) {
-                        return Err(CompilationError::CallableBindingFailed);
-                    }
+                    // the same binding an overloaded call of this function would get
+                    let bind = func
+                        .bind(&arg_types)
+                        .ok_or(CompilationError::CallableBindingFailed)?;
                     return Ok(func.rtype(&bind));
                 }
                 Err(CompilationError::NotAFunction { type_: func_type })
